@@ -857,7 +857,7 @@ def A_default(obj, Rn, imm3, Rd, imm2, widthm1):
         raise InstructionError(obj)
     obj.lsbit = (imm3 << 2) + imm2
     obj.widthminus1 = widthm1
-    obj.operands = [obj.d, obj.n, obj.lsb, obj.widthminus1 + 1]
+    obj.operands = [obj.d, obj.n, obj.lsbit, obj.widthminus1 + 1]
     obj.type = type_data_processing
     obj.cond = env.CONDITION_AL
 
